@@ -220,6 +220,33 @@ PROPS = {
                    'model; the readline refinement (word motions as a zipper) is checked per case. Fixed while building: F17.',
         technique='Lean 4 proof (invariants by induction over action histories) + step-by-step process-level correspondence under tmux',
     ),
+    'C14': dict(
+        areas=[('key', 4000, 150000)],
+        procs=['robust'], needs_fzf=True,
+        rule='(a) LightRenderer.GetChar via hook on generated byte buffers: every key / function / modifier / paste / mouse sequence '
+             'of the decoder, truncated and mutated variants, random bytes, invalid UTF-8, cursor-position reports, double clicks; '
+             'buffers of 1..3000 bytes, optionally cut so that the tail is delivered by the terminal on the decoder\'s "second chance"; '
+             'mouse support on/off; (b) the real binary inside a private tmux server: hostile lines (wide, combining, control, invalid '
+             'bytes, 5000 columns, empty), random option sets (3 layouts, 6 info styles, borders, margins, padding, preview windows of '
+             'all positions / tiny sizes, header / header-lines / header-first, wrap, gap, multi-line, style presets, tabstop, pointer, '
+             'ellipsis, long prompt / query, no-input), windows from 1x1 to 200x50, 2..12 (quick) / 2..60 (thorough) steps of action '
+             'lists, raw key / mouse bytes (send-keys -H) and resizes, liveness probe, then accept / abort / ctrl-c / SIGTERM / SIGINT, '
+             'in a third of the scenarios while an endless preview command is running; non-trivial = buffers >= 3 bytes, every scenario; '
+             'distinct = distinct case lines',
+        trusted=['tmux as terminal emulator and its pane flags (alternate_on, mouse_any_flag)', 'stty -g for the termios comparison',
+                 'ps for the process table', 'a verdict of the process-level driver is only kept if the same scenario gives it again (re-run twice)'],
+        level_text='Lean 4 theorems over an index-checked model of the input decoder (GetChar, escSequence, mouseSequence: every index '
+                   'expression of the Go code is a checked access): for every non-empty byte buffer, any pending terminal input, mouse '
+                   'support on or off, GetChar returns an event or waits — no index out of range, buffer[sz:] always in range — and every '
+                   'event consumes at least one pending byte, so draining any buffer terminates with at most one event per byte; the width '
+                   'arithmetic of list rows keeps every row within the window for every width from 0. The model is compared with the real '
+                   'decoder event by event. Whole-program robustness and exit hygiene (no panic, no hang, termios / alternate screen / '
+                   'mouse mode restored, TMPDIR empty, no surviving child) are observed on the real binary under hostile conditions.',
+        level_note='Partial, as DESIGN.md section 8 says: crash-freedom of the whole renderer, hangs in blocking I/O, signal timing, termios '
+                   'and child reaping live in the runtime — they are exercised by the process-level driver (validation), not proved; the '
+                   'theorems cover the decoder and the row-width arithmetic. SIGHUP / SIGKILL are not handled by fzf and not tested.',
+        technique='Lean 4 proof (input decoder totality + progress, row width bounds) + event-by-event correspondence + hostile-conditions process driver under tmux',
+    ),
     'C15': dict(
         areas=[],
         procs=['screens'], needs_fzf=True,
